@@ -1,0 +1,36 @@
+// SPDX-FileCopyrightText: 2026 The Pion community <https://pion.ly>
+// SPDX-License-Identifier: MIT
+
+package flight12
+
+import (
+	"crypto"
+	"crypto/ecdsa"
+	"crypto/ed25519"
+	"crypto/rsa"
+	"crypto/tls"
+
+	"github.com/pion/dtls/v3/pkg/crypto/clientcertificate"
+)
+
+// certificateFitsCipherSuite reports whether the key of the certificate selected for
+// this ClientHello is of the kind the negotiated cipher suite authenticates with.
+// The local cipher suites are filtered for the default certificate only, a certificate
+// selected by server name may hold a key of another kind.
+func certificateFitsCipherSuite(
+	cert *tls.Certificate,
+	cipherSuite interface{ CertificateType() clientcertificate.Type },
+) bool {
+	signer, ok := cert.PrivateKey.(crypto.Signer)
+	if !ok {
+		return true // reported as an invalid private key by the caller
+	}
+	switch signer.Public().(type) {
+	case ed25519.PublicKey, *ecdsa.PublicKey:
+		return cipherSuite.CertificateType() == clientcertificate.ECDSASign
+	case *rsa.PublicKey:
+		return cipherSuite.CertificateType() == clientcertificate.RSASign
+	}
+
+	return true
+}
